@@ -291,6 +291,12 @@ def run(chk):
             p = os.path.join(wdir, "corpus_%d_%d%d.wb" % (ci, where[0], where[1]))
             open(p, "w").write(json.dumps(cw))
             docs.append((p, "structure", "D29 corpus: depth-surface point coordinate %g" % big, None, 0))
+    for ci, pt in enumerate([[5e4], [], [5e4, 4e4, 3e4]]):
+        cw = {"version": "1.1", "features": [{"model": "continental plate", "name": "a", "coordinates": [[0, 0], [1e5, 0], [1e5, 1e5], [0, 1e5]],
+                                               "max depth": [[1e5], [2e5, [pt]]]}]}
+        p = os.path.join(wdir, "corpus_pt_%d.wb" % ci)
+        open(p, "w").write(json.dumps(cw))
+        docs.append((p, "structure", "D32 corpus: depth-surface point with %d coordinates" % len(pt), None, 0))
     verdicts = schema_verdicts([d[0] for d in docs])
     # one process per document would be slow: batch, the resilient runner restarts after a death
     lines, owner = [], []
